@@ -32,11 +32,11 @@ func c18Grammar() *gen.Grammar {
 		gen.ArrAs(gen.TIntArr, gen.TInt, gen.TInt), gen.ArrAs(gen.TIntArr),
 		gen.Bin(">", gen.TInt, gen.TInt, T), gen.Bin("==", gen.TInt, gen.TInt, T), gen.Bin("<=", gen.TInt, gen.TInt, T),
 		gen.Bin("+", gen.TInt, gen.TInt, gen.TInt), gen.Bin("%", gen.TInt, gen.TInt, gen.TInt), gen.Bin("*", gen.TInt, gen.TInt, gen.TInt),
-		gen.Un("not", T, T), gen.Bin("and", T, T, T), gen.Bin("or", T, T, T),
+		gen.Un("not", T, T), gen.Bin("and", T, T, T), gen.Bin("or", T, T, T), gen.Lit("true", T, true), gen.Lit("false", T, false),
 		gen.Bin("in", gen.TInt, gen.TIntArr, T),
 		gen.Builtin("any", gen.TIntArr, T, T), gen.Builtin("all", gen.TIntArr, T, T), gen.Builtin("count", gen.TIntArr, T, gen.TInt),
 		gen.Len(gen.TIntArr), gen.Index(gen.TIntArr, gen.TInt, gen.TInt),
-		gen.Var("FA", gen.TFloatArr), gen.Hash(gen.TFloat), gen.Lit("1.5", gen.TFloat, 1.5), gen.Var("F", gen.TFloat),
+		gen.Var("FA", gen.TFloatArr), gen.Lit("[0.0, 1.5]", gen.TFloatArr, []float64{0, 1.5}), gen.Lit("[0.5, 1.5, 3.0]", gen.TFloatArr, []float64{0.5, 1.5, 3}), gen.Lit("[2.0]", gen.TFloatArr, []float64{2}), gen.Hash(gen.TFloat), gen.Lit("1.5", gen.TFloat, 1.5), gen.Var("F", gen.TFloat),
 		gen.Bin("<", gen.TFloat, gen.TFloat, T), gen.Bin(">=", gen.TFloat, gen.TFloat, T), gen.Bin("==", gen.TFloat, gen.TFloat, T),
 		gen.Builtin("filter", gen.TFloatArr, T, gen.TFloatArr),
 	}
@@ -423,7 +423,7 @@ func c18(r *report.Run) {
 				}
 			}
 		}
-		for _, xs := range []string{"A", "1..I", "[I, 1, 2]", "filter(A, {# > 1})", "S", "NN[:1][0]", "NN[0:2][1]", "NN[1:][2]", "OS[:1][0].Name", "map(NN, {#[1:]})[0]"} {
+		for _, xs := range []string{"A", "1..I", "[I, 1, 2]", "filter(A, {# > 1})", "S", "NN[:1][0]", "NN[0:2][1]", "NN[1:][2]", "OS[:1][0].Name", "map(NN, {#[1:]})[0]", `"héllo"`, `"日本語x"`, `S + "é😀"`} {
 			for _, i := range []string{"-1", "0", "1", "2", "3", "4", "5", "J"} {
 				vars := []string{}
 				for _, nm := range []string{"A", "I", "S", "J", "NN", "OS"} {
@@ -436,7 +436,7 @@ func c18(r *report.Run) {
 					whole := c18Run(xs, m, henv.Make(v), vars, &extra)
 					lo := c18Run("("+xs+")[:"+i+"]", m, henv.Make(v), vars, &extra)
 					hi := c18Run("("+xs+")["+i+":]", m, henv.Make(v), vars, &extra)
-					if !strings.ContainsAny(xs, " (") && !strings.Contains(xs, "..") {
+					if !strings.ContainsAny(xs, " (\"") && !strings.Contains(xs, "..") {
 						// a postfix chain: the slice continues the chain without parentheses, and must mean the same
 						for _, pair := range [][2]string{{"(" + xs + ")[:" + i + "]", xs + "[:" + i + "]"}, {"(" + xs + ")[" + i + ":]", xs + "[" + i + ":]"}, {"(" + xs + ")[:]", xs + "[:]"}, {"(" + xs + ")[" + i + ":][:1]", xs + "[" + i + ":][:1]"}} {
 							a := c18Run(pair[0], m, henv.Make(v), vars, &extra)
